@@ -5,6 +5,7 @@ the same program have one shape.  Three behaviour-preserving rewrites are applie
 source on disk is never touched; node positions are kept, so reports still point at real lines):
 
   1. sugar canonicalisation (``Canon``): ``getattr(x, 'a')`` -> ``x.a``; ``not a == b`` -> ``a != b``;
+     ``f(a, *PAIR)`` -> ``f(a, 'x', 'y')`` for a module-level, never re-bound ``PAIR = ('x', 'y')``;
      ``dict([(k, v) for ..])`` -> ``{k: v for ..}``; ``if c: t = a / else: t = b`` -> ``t = a if c else b``;
      ``while 1`` -> ``while True``;
   2. inlining of *private, non-anchor* helpers (``inline_helpers``): a call of a module-level ``_helper(..)`` or of
@@ -70,10 +71,53 @@ _NEG = {ast.Eq: ast.NotEq, ast.NotEq: ast.Eq, ast.Lt: ast.GtE, ast.GtE: ast.Lt, 
         ast.In: ast.NotIn, ast.NotIn: ast.In, ast.Is: ast.IsNot, ast.IsNot: ast.Is}
 
 
+def module_const_tuples(tree):
+    """Module-level names bound exactly once in the whole module -- by a top-level ``NAME = (<constants>)`` -- and
+    never re-bound, augmented, deleted, declared global or shadowed by a parameter / local of any function:
+    name -> the tuple display.  ``f(*NAME)`` then passes exactly these constants, in order."""
+    stores = {}
+    for n in ast.walk(tree):
+        if isinstance(n, ast.Name) and isinstance(n.ctx, (ast.Store, ast.Del)):
+            stores[n.id] = stores.get(n.id, 0) + 1
+        elif isinstance(n, ast.arg):
+            stores[n.arg] = stores.get(n.arg, 0) + 2
+        elif isinstance(n, (ast.FunctionDef, ast.AsyncFunctionDef, ast.ClassDef)):
+            stores[n.name] = stores.get(n.name, 0) + 2
+        elif isinstance(n, (ast.Global, ast.Nonlocal)):
+            for x in n.names:
+                stores[x] = stores.get(x, 0) + 2
+        elif isinstance(n, ast.alias):
+            nm = (n.asname or n.name).split('.')[0]
+            stores[nm] = stores.get(nm, 0) + 2
+        elif isinstance(n, ast.ExceptHandler) and n.name:
+            stores[n.name] = stores.get(n.name, 0) + 2
+    out = {}
+    for st in tree.body:
+        if isinstance(st, ast.Assign) and len(st.targets) == 1 and isinstance(st.targets[0], ast.Name) and \
+                isinstance(st.value, ast.Tuple) and st.value.elts and \
+                all(isinstance(e, ast.Constant) and isinstance(e.value, (str, int, float, bool, type(None))) for e in st.value.elts) and \
+                stores.get(st.targets[0].id) == 1:
+            out[st.targets[0].id] = st.value
+    return out
+
+
 class Canon(ast.NodeTransformer):
+    def __init__(self, const_tuples=None):
+        self.const_tuples = const_tuples or {}
+
     def visit_Call(self, node):
         self.generic_visit(node)
         f = node.func
+        # ``f(a, *PAIR)`` with PAIR a module-level tuple of constants  ->  ``f(a, 'x', 'y')``
+        if self.const_tuples and any(isinstance(a, ast.Starred) and isinstance(a.value, ast.Name) and a.value.id in self.const_tuples
+                                     for a in node.args):
+            args = []
+            for a in node.args:
+                if isinstance(a, ast.Starred) and isinstance(a.value, ast.Name) and a.value.id in self.const_tuples:
+                    args.extend(ast.copy_location(ast.Constant(value=e.value), a) for e in self.const_tuples[a.value.id].elts)
+                else:
+                    args.append(a)
+            node.args = args
         if isinstance(f, ast.Name) and f.id == 'getattr' and len(node.args) == 2 and not node.keywords and \
                 isinstance(node.args[1], ast.Constant) and isinstance(node.args[1].value, str) and _IDENT.match(node.args[1].value):
             return ast.copy_location(ast.Attribute(value=node.args[0], attr=node.args[1].value, ctx=ast.Load()), node)
@@ -914,11 +958,12 @@ class Unroll(ast.NodeTransformer):
 
 def normalize_tree(tree):
     """Stage 1 (intra-module).  Returns (tree, number of inlined calls)."""
-    tree = Canon().visit(tree)
+    consts = module_const_tuples(tree)
+    tree = Canon(consts).visit(tree)
     inl = Inliner(tree, anchor_names())
     n = inl.run()
     if n:
-        tree = Canon().visit(tree)
+        tree = Canon(consts).visit(tree)
     tree = Unroll().visit(tree)
     ast.fix_missing_locations(tree)
     return tree, n
